@@ -107,7 +107,12 @@ def texts_for(tc, rng, cache):
         return [(u'<zq9x onzq9x="1">&amp;</zq9x><script>zq9x()</script>', None, None), (u'</pre></h2><zq9x>', None, None),
                 (u'Traceback (most recent call last):\n  File "<zq9x>", line 1, in <zq9x>\nzq9xError: <zq9x a="b">', 'zq9xError', '<zq9x a="b">')]
     if tc == 'TemplateSyntax':
-        return [(u'{tb_str} {#parsed_err}{exc_type}{/parsed_err} {>zq9x/} {~lb}', None, None), (u'{', None, None), (u'{{}} {% zq9x %} ${zq9x}', None, None)]
+        return [(u'{tb_str} {#parsed_err}{exc_type}{/parsed_err} {>zq9x/} {~lb}', None, None), (u'{', None, None), (u'{{}} {% zq9x %} ${zq9x}', None, None),
+                # template syntax on the LAST line (the line a heading / title is taken from), balanced and unbalanced
+                (u'Traceback (most recent call last):\n  File "x.py", line 1\nKeyError: {#items}', 'KeyError', u'{#items}'),
+                (u'first line\n{?x}', None, None), (u'some output\n{/items} stray close', None, None),
+                (u'a\nb\nValueError: {:else} {@eq key=x value=1}', 'ValueError', u'{:else} {@eq key=x value=1}'),
+                (u'line\n{#a}{#b}{/a}{/b}\n', None, None)]
     if tc == 'Empty':
         return [('', None, None)]
     if tc == 'WhitespaceOnly':
